@@ -335,3 +335,9 @@ package index
 
 //@ func NewMultihashSorted
 //@   ensures kind [C05,C11]: result != nil
+
+//@ func (*MultihashIndexSorted).Unmarshal
+//@   ghost after call[newMultiWidthCodedIndex#0]: mark(m) := i
+//@   call[multiWidthCodedIndex.Unmarshal#0] assert reads_into_the_new_bucket [C11]: ref(arg0) == ref(mwci) && ref(arg1) == ref(r)
+//@   call[MultihashIndexSorted.put#0] assert stores_the_bucket_created_in_this_iteration [C11]: ref(arg1) == ref(mwci) && mark(m) == i
+//@   note stores_the_bucket_created_in_this_iteration: one bucket object per hash code: the bucket put under a code is the one allocated and read in the same iteration
